@@ -36,4 +36,18 @@ theorem goMake_natCast {β : Type} (z : β) (n : Nat) : goMake z (n : Int) = .ok
   have : ¬ ((n : Int) < 0) := by omega
   simp [goMake, this]
 
+theorem modify_eq_set_of_lt {β : Type} (f : β → β) :
+    ∀ (l : List β) (i : Nat) (h : i < l.length), l.modify i f = l.set i (f l[i]) := by
+  intro l
+  induction l with
+  | nil => intro i h; simp at h
+  | cons a l ih =>
+    intro i h
+    cases i with
+    | zero => simp
+    | succ i =>
+      have h' : i < l.length := by simpa using h
+      simp [ih i h']
+
+
 end EtVerif.Tr
